@@ -186,10 +186,11 @@ func (w *world) load(k string) (*item, time.Duration, error) {
 	tag := fmt.Sprintf("%s#%d", k, att)
 	if conc {
 		zsimrt.Yield("loader:enter")
-		if d := w.loaderSleep[tag]; d > 0 {
-			e.Probe("loader_slept")
-			zsimrt.Sleep("loader:sleep", d)
-		}
+	}
+	if d := w.loaderSleep[tag]; d > 0 && (conc || w.flavor == 2) {
+		// a creation that takes (simulated) time
+		e.Probe("loader_slept")
+		zsimrt.Sleep("loader:sleep", d)
 	}
 	var it *item
 	var err error
@@ -289,6 +290,8 @@ func (w *world) Setup(e *sim.Env) {
 	default:
 		var c *glru.ExpirableCache[string, glru.ExpirableItem[*item]]
 		c, err = glru.NewExpirableCache[string, glru.ExpirableItem[*item]](w.capa, func(k string) (glru.ExpirableItem[*item], error) {
+			// the lifetime of an item counts from the start of its creation
+			t0 := time.Now()
 			it, ttl, err := w.load(k)
 			if err != nil {
 				return glru.ExpirableItem[*item]{}, err
@@ -296,7 +299,7 @@ func (w *world) Setup(e *sim.Env) {
 			if ttl == 0 {
 				ttl = 1000 * time.Hour
 			}
-			exp := time.Now().Add(ttl)
+			exp := t0.Add(ttl)
 			switch int64(ttl) {
 			case TTLYear2500:
 				exp = time.Date(2500, 1, 1, 0, 0, 0, 0, time.UTC)
